@@ -170,7 +170,7 @@ func runC09(c *Ctx) {
 	c09Forced(c)
 	c09FileName(c)
 	// level/override rules, integrity, DN rules
-	c02Custom(c)
+	c09Custom(c)
 	c01Levels(c)
 	c09Level(c)
 	for _, fn := range w.FuncsOfPkg("internal/pkix") {
@@ -228,19 +228,19 @@ func c09Document(c *Ctx, V *ssa.Function, kind string, sigs map[string][]string)
 	// duplicate names
 	var stmt string
 	var CORE *ssa.Function
-	for l := range labels {
+	for _, l := range labelList(labels) {
 		if strings.HasPrefix(l, "EQ(call:ngo/verifier/trustpolicy.") && strings.HasSuffix(l, "#err,nil)") && strings.Contains(l, ".SignatureVerification,") {
 			// EQ(call:<core>(<stmt>.Name,<stmt>.SignatureVerification,<stmt>.TrustStores,<stmt>.TrustedIdentities)#err,nil)
 			inner := strings.TrimSuffix(strings.TrimPrefix(l, "EQ(call:"), ")#err,nil)")
 			i := strings.Index(inner, "(")
 			args := strings.Split(inner[i+1:], ",")
 			if len(args) == 4 && strings.HasSuffix(args[0], ".Name") {
-				stmt = strings.TrimSuffix(args[0], ".Name")
-				if args[1] == stmt+".SignatureVerification" && args[2] == stmt+".TrustStores" && args[3] == stmt+".TrustedIdentities" {
-					for _, ci := range allCalls(V) {
-						if call, ok := ci.(*ssa.Call); ok && "call:"+inner[:i] == "call:"+calleeName(call) {
-							CORE = staticCallee(call)
-						}
+				st := strings.TrimSuffix(args[0], ".Name")
+				if args[1] == st+".SignatureVerification" && args[2] == st+".TrustStores" && args[3] == st+".TrustedIdentities" {
+					// the fact is must-pass for the iteration whether the call stands in the loop body or in a
+					// per-statement helper whose success the loop requires (its facts are composed into this frame)
+					if f := fnByFullName(w, inner[:i]); f != nil {
+						CORE, stmt = f, st
 					}
 				}
 			}
@@ -250,17 +250,49 @@ func c09Document(c *Ctx, V *ssa.Function, kind string, sigs map[string][]string)
 	if stmt == "" {
 		return CORE
 	}
-	_, dupGate := hasLabel(labels, "F(call:(ngo/internal/container.Set[T]).Contains(", ","+stmt+".Name))")
-	// the name is added on every completed iteration
-	okAdd := false
-	for _, ci := range allCalls(V) {
-		call, ok := ci.(*ssa.Call)
-		if !ok || !strings.HasSuffix(calleeName(call), "container.Set[T]).Add") || desc(call.Call.Args[1]) != stmt+".Name" {
-			continue
+	// duplicate names: the iteration passes "the name set does not contain the statement's name" and adds the name to that
+	// very set, which lives across the iterations (it is made outside the loop). Both the test and the Add may stand in
+	// the loop body or in a per-statement helper whose success the iteration requires (c09VisitCalls / c09EffectBlocks:
+	// the helper's facts are read in this frame, its parameters being the arguments).
+	inLoop := loopBlocks(loop.Header)
+	outside := func(v ssa.Value) bool {
+		if v == nil {
+			return false
 		}
+		in, isInstr := v.(ssa.Instruction)
+		return !isInstr || (in.Block() != nil && !inLoop[in.Block().Index])
+	}
+	var sets []ssa.Value
+	c09VisitCalls(w, V, c09TopFrame(), c09Depth, func(call *ssa.Call, fr c09Frame) {
+		if !strings.HasSuffix(calleeName(call), "container.Set[T]).Contains") || len(call.Call.Args) != 2 || fr.sub(desc(call.Call.Args[1])) != stmt+".Name" {
+			return
+		}
+		if s := fr.top(call.Call.Args[0]); outside(s) && labelHas(labels, fr.sub("F("+desc(call)+")")) {
+			sets = append(sets, s)
+		}
+	})
+	dupGate := len(sets) > 0
+	// the name is added on every completed iteration: by the loop body itself, or by a per-statement helper whose
+	// success the iteration requires and whose every success exit lies behind the Add
+	okAdd := false
+	{
+		isAdd := func(call *ssa.Call, fr c09Frame) bool {
+			if !strings.HasSuffix(calleeName(call), "container.Set[T]).Add") || len(call.Call.Args) != 2 || fr.sub(desc(call.Call.Args[1])) != stmt+".Name" {
+				return false
+			}
+			for _, s := range sets {
+				if fr.top(call.Call.Args[0]) == s {
+					return true
+				}
+			}
+			return false
+		}
+		blocks := c09EffectBlocks(w, V, c09TopFrame(), isAdd, func(l string) bool { return labelHas(labels, l) }, c09Depth)
 		cut := map[edgeKey]bool{}
-		cutInto(fi, call.Block(), cut)
-		if call.Block() == loop.Body || !fi.reachHit([]state{{loop.Body.Index, 0, -1}}, cut, map[int]bool{loop.Header.Index: true}) {
+		for b := range blocks {
+			cutInto(fi, b, cut)
+		}
+		if len(blocks) > 0 && (blocks[loop.Body] || !fi.reachHit([]state{{loop.Body.Index, 0, -1}}, cut, map[int]bool{loop.Header.Index: true})) {
 			okAdd = true
 		}
 	}
@@ -269,7 +301,10 @@ func c09Document(c *Ctx, V *ssa.Function, kind string, sigs map[string][]string)
 		c09BlobGlobal(c, V, loop, stmt)
 	} else {
 		// scope rules
-		ok := has("EQ(call:ngo/verifier/trustpolicy.", "("+doc+")#err,nil)")
+		ok := false
+		if sc := c09ScopeCall(w, V); sc != nil {
+			ok = has("EQ(" + descTailErr(sc) + ",nil)")
+		}
 		c.slot(ok, 1, "oci/document/scope-rules", "oci document: registry scope rules", site, "accepted without the scope rules")
 	}
 	return CORE
@@ -293,45 +328,16 @@ func c09BlobGlobal(c *Ctx, V *ssa.Function, loop *loopRef, stmt string) {
 	var glob bool
 	var level string
 	ip := &Interp{Fn: V, TrackStrings: true, IntTypes: map[string]bool{}}
-	ip.Hook = func(in ssa.Instruction, env map[ssa.Value]AVal) (AVal, bool) {
-		v, ok := in.(ssa.Value)
-		if !ok {
-			return AVal{}, false
-		}
-		switch x := in.(type) {
-		case *ssa.UnOp, *ssa.Field:
-			d := desc(v)
-			if d == stmt+".GlobalPolicy" {
-				return AVal{Kind: aBool, B: glob}, true
-			}
-			if d == stmt+".SignatureVerification.VerificationLevel" {
-				return AVal{Kind: aStr, Str: level}, true
-			}
-			if strings.HasSuffix(d, "LevelSkip.Name") {
-				return AVal{Kind: aStr, Str: "skip"}, true
-			}
-		case *ssa.Call:
-			n := calleeName(x)
-			if strings.HasSuffix(n, "container.Set[T]).Contains") {
-				return AVal{Kind: aBool, B: false}, true
-			}
-			if n == "reflect.DeepEqual" {
-				// comparable only if both operands have the same static type; a string against *VerificationLevel is never equal
-				a, b := unwrap(x.Call.Args[0]), unwrap(x.Call.Args[1])
-				if !types.Identical(a.Type(), b.Type()) {
-					return AVal{Kind: aBool, B: false}, true
-				}
-			}
-		case *ssa.Extract:
-			if isErrorType(x.Type()) {
-				return AVal{Kind: aNil}, true
-			}
-		}
-		if call, ok := in.(*ssa.Call); ok && isErrorType(call.Type()) {
-			return AVal{Kind: aNil}, true
+	inputs := []string{stmt + ".GlobalPolicy", stmt + ".SignatureVerification.VerificationLevel"}
+	ip.Hook = c09GlobalHook(c, ip, func(s string) string { return s }, inputs, func(d string) (AVal, bool) {
+		switch d {
+		case inputs[0]:
+			return AVal{Kind: aBool, B: glob}, true
+		case inputs[1]:
+			return AVal{Kind: aStr, Str: level}, true
 		}
 		return AVal{}, false
-	}
+	}, 0)
 	var bad []string
 	n := 0
 	for _, seen := range []bool{false, true} {
@@ -399,7 +405,8 @@ func c09Core(c *Ctx, CORE *ssa.Function) {
 	oa, _ := w.constString("verifier/trustpolicy", "OptionAfterCertExpiry")
 	oal, _ := w.constString("verifier/trustpolicy", "OptionAlways")
 	vt := "." + "VerifyTimestamp,"
-	ok, n, wit := exitsBlocked(fi, Mode{Kind: mErr}, matchOf(pre("EQ(", vt+`const:"")`), pre("EQ(", vt+fmt.Sprintf("const:%q)", oal)), pre("EQ(", vt+fmt.Sprintf("const:%q)", oa))), nil)
+	// (the option test may stand in the core validator or in a helper it hands the option to: exitsBlockedDeep)
+	ok, n, wit := exitsBlockedDeep(w, CORE, Mode{Kind: mErr}, matchOf(pre("EQ(", vt+`const:"")`), pre("EQ(", vt+fmt.Sprintf("const:%q)", oal)), pre("EQ(", vt+fmt.Sprintf("const:%q)", oa))))
 	c.slot(ok && n >= 3, n, "core/verify-timestamp-option", "statement: verifyTimestamp is unset, always or afterCertExpiry", site, "an unknown verifyTimestamp option is accepted", wit...)
 	lvlName := ".Name,const:\"skip\")"
 	skipE := fi.edgesMatching(matchOf(pre("EQ(call:(*ngo/verifier/trustpolicy.SignatureVerification).GetVerificationLevel(", lvlName)))
@@ -535,7 +542,7 @@ func c09Identities(c *Ctx, TI *ssa.Function) {
 	wc, _ := w.constString("internal/trustpolicy", "Wildcard")
 	xs, _ := w.constString("internal/trustpolicy", "X509Subject")
 	site := w.FnPos(TI)
-	ok, n, wit := exitsBlocked(fi, Mode{Kind: mErr}, anyOf("LE(len("+p+"),const:1)", fmt.Sprintf("F(call:slices.Contains(%s,const:%q))", p, wc)), nil)
+	ok, n, wit := exitsBlockedDeep(w, TI, Mode{Kind: mErr}, anyOf("LE(len("+p+"),const:1)", fmt.Sprintf("F(call:slices.Contains(%s,const:%q))", p, wc)))
 	c.slot(ok && n >= 2, n, "identity/wildcard-alone", "identities: the wildcard identity stands alone", site, "a wildcard next to other identities is accepted", wit...)
 	loop := findLoop(TI, func(d string) bool { return d == p })
 	if loop == nil {
@@ -550,49 +557,82 @@ func c09Identities(c *Ctx, TI *ssa.Function) {
 	labels, _ := fi.mustPassBetween([]int{loop.Body.Index}, map[int]bool{loop.Header.Index: true})
 	_, h := hasLabel(labels, "NE("+id, `],const:"")`)
 	c.slot(h, 1, "identity/empty", "identities: no empty identity", lsite, "")
-	b, n := iterBlocked(fi, loop, m, matchOf(isWild, pre("T(call:strings.Cut("+id, `,const:":")#2)`)))
+	b, n := iterBlockedDeep(w, TI, loop, m, matchOf(isWild, pre("T(call:strings.Cut("+id, `,const:":")#2)`)))
 	c.slot(b, n, "identity/separator", "identities: a non-wildcard identity has a prefix:value separator", lsite, "an identity without separator is accepted")
-	b, n = iterBlocked(fi, loop, m, matchOf(isWild, notX509, pre("NE(call:strings.Cut("+id, `,const:":")#1,const:"")`)))
+	b, n = iterBlockedDeep(w, TI, loop, m, matchOf(isWild, notX509, pre("NE(call:strings.Cut("+id, `,const:":")#1,const:"")`)))
 	c.slot(b, n, "identity/empty-value", "identities: an x509.subject identity has a non-empty value", lsite, "an x509.subject identity with empty value is accepted")
-	b, n = iterBlocked(fi, loop, m, matchOf(isWild, notX509, pre("EQ(call:ngo/internal/pkix.", "(call:strings.Cut("+id, `,const:":")#1)#err,nil)`)))
+	b, n = iterBlockedDeep(w, TI, loop, m, matchOf(isWild, notX509, pre("EQ(call:ngo/internal/pkix.", "(call:strings.Cut("+id, `,const:":")#1)#err,nil)`)))
 	c.slot(b, n, "identity/dn-parses", "identities: an x509.subject identity parses as a distinguished name with C, ST, O", lsite, "an unparsable x509.subject identity is accepted")
-	// every parsed DN is collected for the overlap check
+	// the overlap check: the function holding the call of the subset function (func(map[string]string, map[string]string) bool
+	// of the module) — the identity validator itself, or a module callee that is handed the collected list
+	isSubset := func(call *ssa.Call) bool {
+		g := staticCallee(call)
+		return g != nil && w.IsProductFn(g) && len(call.Call.Args) == 2 && isMapSS(call.Call.Args[0].Type()) && isMapSS(call.Call.Args[1].Type()) && call.Type().String() == "bool"
+	}
+	holds := func(f *ssa.Function) bool {
+		for _, ci := range allCalls(f) {
+			if call, ok := ci.(*ssa.Call); ok && isSubset(call) {
+				return true
+			}
+		}
+		return false
+	}
 	var OV *ssa.Function
 	var ovCall *ssa.Call
-	s := w.Summarize(TI, m)
-	for _, ci := range allCalls(TI) {
-		call, ok := ci.(*ssa.Call)
-		if !ok {
-			continue
+	if holds(TI) {
+		OV = TI
+	} else {
+		for _, ci := range allCalls(TI) {
+			call, ok := ci.(*ssa.Call)
+			if !ok || !isErrorType(call.Type()) {
+				continue
+			}
+			if g := staticCallee(call); g != nil && g.Blocks != nil && w.IsProductFn(g) && len(call.Call.Args) == len(g.Params) && holds(g) {
+				OV, ovCall = g, call
+			}
 		}
-		g := staticCallee(call)
-		if g == nil || !w.IsProductFn(g) || len(call.Call.Args) != 2 || !isErrorType(call.Type()) {
-			continue
-		}
-		if !strings.Contains(call.Call.Args[1].Type().String(), "parsedDN") {
-			continue
-		}
-		OV, ovCall = g, call
 	}
 	if OV == nil {
 		c.Bad("identity/overlap", "identities: x509.subject identities do not overlap", site, "no overlap check is called")
 		return
 	}
-	okGate := len(s.Exits) > 0
-	for _, ex := range s.Exits {
-		if !labelHas(ex.Checked, "EQ("+descTailErr(ovCall)+",nil)") && ex.Tail != calleeName(ovCall) {
-			okGate = false
+	X := c09Overlap(c, OV, isSubset)
+	if X == nil {
+		c.Bad("identity/overlap", "identities: x509.subject identities do not overlap", site, "the list the overlap check ranges over is not recognised")
+		return
+	}
+	// the list the overlap loops range over, in this function; the failure of the check rejects the statement
+	var L ssa.Value
+	okGate := false
+	if ovCall == nil {
+		// the loops stand in the identity validator itself: obligation identity/overlap/loop (success only behind them)
+		L, okGate = X, true
+	} else {
+		for i, prm := range OV.Params {
+			if ssa.Value(prm) == X {
+				L = ovCall.Call.Args[i]
+			}
+		}
+		s := w.Summarize(TI, m)
+		okGate = len(s.Exits) > 0
+		for _, ex := range s.Exits {
+			if !labelHas(ex.Checked, "EQ("+descTailErr(ovCall)+",nil)") && ex.Tail != calleeName(ovCall) {
+				okGate = false
+			}
 		}
 	}
-	// the list handed over is appended with {identity, parsed DN} on every x509.subject iteration
+	// that list is appended with {identity, parsed DN} on every x509.subject iteration: an iteration that does not pass
+	// the append completes only for the wildcard or a prefix other than x509.subject (the two tests may stand in a
+	// helper that reports "is an x509.subject identity" as a boolean result: c09GateCut)
+	// The list is complete: it starts empty and is only ever grown by appends (no re-slicing, no other origin).
 	okList := false
-	for _, ci := range allCalls(TI) {
-		call, ok := ci.(*ssa.Call)
-		if !ok {
-			continue
-		}
-		if bi, ok := call.Call.Value.(*ssa.Builtin); ok && bi.Name() == "append" && (fwdPhis(call)[ovCall.Call.Args[1]] || call == ovCall.Call.Args[1]) {
-			cut := fi.edgesMatching(matchOf(isWild, notX509))
+	if L != nil {
+		appends, grownOnly := c09ListSources(L)
+		for _, call := range appends {
+			if !grownOnly {
+				break
+			}
+			cut := c09GateCut(w, TI, matchOf(isWild, notX509), c09Depth).cut
 			cutInto(fi, call.Block(), cut)
 			if !fi.reachHit([]state{{loop.Body.Index, 0, -1}}, cut, map[int]bool{loop.Header.Index: true}) {
 				okList = true
@@ -600,39 +640,53 @@ func c09Identities(c *Ctx, TI *ssa.Function) {
 		}
 	}
 	c.slot(okGate && okList, 1, "identity/overlap", "identities: the overlap check runs over every parsed x509.subject identity and its failure rejects the statement", site, fmt.Sprintf("gate=%v all-collected=%v", okGate, okList))
-	c09Overlap(c, OV)
 }
 
-func c09Overlap(c *Ctx, OV *ssa.Function) {
+// c09Overlap checks the pair loops around the call of the subset function in OV and returns the list they range over
+// (a parameter of OV, or a local list when the loops stand in the identity validator itself).
+func c09Overlap(c *Ctx, OV *ssa.Function, isSubset func(*ssa.Call) bool) ssa.Value {
 	w := c.W
 	fi := w.Info(OV)
 	c.SeenFn(OV.String())
-	p := OV.Params[1]
-	var loops []loopRef
-	for _, l := range allLoops(OV) {
-		if l.X == ssa.Value(p) {
-			loops = append(loops, l)
+	var sub *ssa.Call
+	for _, ci := range allCalls(OV) {
+		if call, ok := ci.(*ssa.Call); ok && isSubset(call) {
+			sub = call
 		}
 	}
 	site := w.FnPos(OV)
 	rule := "overlap: both loops range over the complete identity list and every ordered pair i != j is tested with the subset function (the relation is not symmetric)"
-	if len(loops) != 2 {
-		c.Bad("identity/overlap/all-ordered-pairs", rule, site, fmt.Sprintf("%d loops range over the complete list (a loop over a sub-slice such as list[i+1:] skips half of the ordered pairs)", len(loops)))
-		return
+	if sub == nil {
+		c.Bad("identity/overlap/all-ordered-pairs", rule, site, "no call of the subset function")
+		return nil
 	}
+	// the loops around the subset call
+	var loops []loopRef
+	for _, l := range allLoops(OV) {
+		if loopBlocks(l.Header)[sub.Block().Index] {
+			loops = append(loops, l)
+		}
+	}
+	if len(loops) != 2 || loops[0].X != loops[1].X {
+		n := 0
+		if len(loops) > 0 {
+			for _, l := range loops {
+				if l.X == loops[0].X {
+					n++
+				}
+			}
+		}
+		c.Bad("identity/overlap/all-ordered-pairs", rule, site, fmt.Sprintf("%d loops around the subset test, %d over one and the same complete list (a loop over a sub-slice such as list[i+1:] skips half of the ordered pairs)", len(loops), n))
+		return nil
+	}
+	p := loops[0].X
 	outer, inner := loops[0], loops[1]
 	if loopBlocks(inner.Header)[outer.Header.Index] {
 		outer, inner = inner, outer
 	}
 	// the inner iteration completes only if i == j or not subset(list[i], list[j])
 	okPair := false
-	var sub *ssa.Call
-	for _, ci := range allCalls(OV) {
-		if call, ok := ci.(*ssa.Call); ok && len(call.Call.Args) == 2 && isMapSS(call.Call.Args[0].Type()) && call.Type().String() == "bool" {
-			sub = call
-		}
-	}
-	if sub != nil {
+	{
 		idxOf := func(v ssa.Value) ssa.Value {
 			// <list>[idx].ParsedMap
 			var walk func(v ssa.Value) ssa.Value
@@ -645,11 +699,11 @@ func c09Overlap(c *Ctx, OV *ssa.Function) {
 				case *ssa.Field:
 					return walk(x.X)
 				case *ssa.IndexAddr:
-					if x.X == ssa.Value(p) {
+					if x.X == p {
 						return x.Index
 					}
 				case *ssa.Index:
-					if x.X == ssa.Value(p) {
+					if x.X == p {
 						return x.Index
 					}
 				case *ssa.Alloc:
@@ -689,36 +743,59 @@ func c09Overlap(c *Ctx, OV *ssa.Function) {
 	cut := map[edgeKey]bool{}
 	cutInto(fi, outer.Header, cut)
 	c.Check(fi.successWitness(Mode{Kind: mErr}, entryState(), cut) == nil, "identity/overlap/loop", "overlap: success only after all pairs", site, "the loops can be bypassed")
+	return p
 }
 
-func c09Scopes(c *Ctx, ociV *ssa.Function) {
-	w := c.W
-	// the scope validator: module callee of the OCI validator taking the document
-	var SC *ssa.Function
+// c09ScopeCall: the call of the scope validator — the module callee of the OCI validator that returns an error and is
+// handed the document or its statement list (the role is given by what is passed, not by a name).
+func c09ScopeCall(w *World, ociV *ssa.Function) *ssa.Call {
+	doc := "param:" + ociV.Params[0].Name()
+	var out *ssa.Call
 	for _, ci := range allCalls(ociV) {
 		call, ok := ci.(*ssa.Call)
 		if !ok {
 			continue
 		}
 		g := staticCallee(call)
-		if g != nil && w.IsProductFn(g) && len(call.Call.Args) == 1 && desc(call.Call.Args[0]) == "param:"+ociV.Params[0].Name() && isErrorType(call.Type()) {
-			SC = g
+		if g == nil || g.Blocks == nil || !w.IsProductFn(g) || len(call.Call.Args) != 1 || !isErrorType(call.Type()) {
+			continue
+		}
+		if d := desc(call.Call.Args[0]); d == doc || d == doc+".TrustPolicies" {
+			out = call
 		}
 	}
-	if SC == nil {
-		c.Bad("scope/anchor", "scope rules are applied to the document", w.FnPos(ociV), "no scope validator is called with the document")
+	return out
+}
+
+func c09Scopes(c *Ctx, ociV *ssa.Function) {
+	w := c.W
+	scCall := c09ScopeCall(w, ociV)
+	if scCall == nil {
+		c.Bad("scope/anchor", "scope rules are applied to the document", w.FnPos(ociV), "no scope validator is called with the document or its statements")
 		return
 	}
+	SC := staticCallee(scCall)
 	fi := w.Info(SC)
 	c.SeenFn(SC.String())
-	doc := "param:" + SC.Params[0].Name()
+	// the statement list inside the scope validator: its parameter, or the TrustPolicies field of its parameter
+	stm := "param:" + SC.Params[0].Name()
+	if !strings.HasSuffix(desc(scCall.Call.Args[0]), ".TrustPolicies") {
+		stm += ".TrustPolicies"
+	}
 	m := Mode{Kind: mErr}
 	wc, _ := w.constString("internal/trustpolicy", "Wildcard")
-	outer := findLoop(SC, func(d string) bool { return d == doc+".TrustPolicies" })
+	outer := findLoop(SC, func(d string) bool { return d == stm })
 	inner := findLoop(SC, func(d string) bool {
-		return strings.HasPrefix(d, doc+".TrustPolicies[") && strings.HasSuffix(d, "].RegistryScopes")
+		return strings.HasPrefix(d, stm+"[") && strings.HasSuffix(d, "].RegistryScopes")
 	})
-	uniq := findLoop(SC, func(d string) bool { return strings.HasPrefix(d, "makemap:map[string]int") })
+	// the scope counts: a map[string]int made in the validator, ranged over after the statement loop
+	var uniq *loopRef
+	for _, l := range allLoops(SC) {
+		l := l
+		if mm, ok := l.X.(*ssa.MakeMap); ok && abbrev(types.TypeString(mm.Type(), nil)) == "map[string]int" {
+			uniq = &l
+		}
+	}
 	if outer == nil || inner == nil || uniq == nil {
 		c.Bad("scope/loops", "scope rules: loops over statements, their scopes and the scope counts", w.FnPos(SC), fmt.Sprintf("statements=%v scopes=%v counts=%v", outer != nil, inner != nil, uniq != nil))
 		return
@@ -726,9 +803,10 @@ func c09Scopes(c *Ctx, ociV *ssa.Function) {
 	osite := w.InstrPos(blockTerm(outer.Header))
 	sc := desc(inner.X)
 	// per statement: entering the scope loop requires non-empty scopes and wildcard alone
+	// (the gates may be written as one materialised condition or sit in a helper: c09GateCut)
 	toInner := func(sel EdgeSel) (bool, int) {
-		cut := fi.edgesMatching(sel)
-		return !fi.reachHit([]state{{outer.Body.Index, 0, -1}}, cut, map[int]bool{inner.Header.Index: true}), len(cut)
+		gc := c09GateCut(w, SC, sel, c09Depth)
+		return !fi.reachHit([]state{{outer.Body.Index, 0, -1}}, gc.cut, map[int]bool{inner.Header.Index: true}), gc.n
 	}
 	b, n := toInner(anyOf("NE(len("+sc+"),const:0)", "GT(len("+sc+"),const:0)", "GE(len("+sc+"),const:1)"))
 	c.slot(b, n, "scope/present", "scopes: every statement has at least one registry scope", osite, "")
@@ -742,13 +820,38 @@ func c09Scopes(c *Ctx, ociV *ssa.Function) {
 	}
 	isite := w.InstrPos(blockTerm(inner.Header))
 	el := sc + "["
-	b, n = iterBlocked(fi, inner, m, matchOf(pre("EQ("+el, fmt.Sprintf("],const:%q)", wc)), pre("EQ(call:ngo/verifier/trustpolicy.", "("+el, ")#err,nil)")))
+	// the format validator: the module call in the scope loop that returns an error and is handed the scope
+	// (a function of the scope, or a method of an object that carries the compiled patterns)
+	var fmCall *ssa.Call
+	fmArg := -1
+	for bi := range loopBlocks(inner.Header) {
+		for _, in := range SC.Blocks[bi].Instrs {
+			call, ok := in.(*ssa.Call)
+			if !ok || !isErrorType(call.Type()) {
+				continue
+			}
+			g := staticCallee(call)
+			if g == nil || g.Blocks == nil || !w.IsProductFn(g) || len(call.Call.Args) != len(g.Params) {
+				continue
+			}
+			for i, a := range call.Call.Args {
+				if strings.HasPrefix(desc(a), el) {
+					fmCall, fmArg = call, i
+				}
+			}
+		}
+	}
+	fmGate := "EQ(call:?)"
+	if fmCall != nil {
+		fmGate = "EQ(" + descTailErr(fmCall) + ",nil)"
+	}
+	b, n = iterBlockedDeep(w, SC, inner, m, matchOf(pre("EQ("+el, fmt.Sprintf("],const:%q)", wc)), func(l string) bool { return l == fmGate }))
 	c.slot(b && n >= 2, n, "scope/format", "scopes: every non-wildcard scope has a valid repository format", isite, "a malformed scope is accepted")
 	// every scope (wildcard included) is counted on every completed inner iteration
 	var mu *ssa.MapUpdate
 	for bi := range loopBlocks(inner.Header) {
 		for _, in := range SC.Blocks[bi].Instrs {
-			if x, ok := in.(*ssa.MapUpdate); ok && strings.HasPrefix(desc(x.Map), "makemap:map[string]int") {
+			if x, ok := in.(*ssa.MapUpdate); ok && x.Map == uniq.X {
 				mu = x
 			}
 		}
@@ -759,37 +862,49 @@ func c09Scopes(c *Ctx, ociV *ssa.Function) {
 		cutInto(fi, mu.Block(), cut)
 		if mu.Block() == inner.Body || !fi.reachHit([]state{{inner.Body.Index, 0, -1}}, cut, map[int]bool{inner.Header.Index: true}) {
 			// the stored value is count+1
-			if strings.Contains(desc(mu.Value), "+ const:1") {
+			cur := desc(uniq.X) + "[" + desc(mu.Key) + "]"
+			if v := desc(mu.Value); v == "("+cur+" + const:1)" || v == "(const:1 + "+cur+")" {
 				okCount = true
 			}
 		}
 	}
 	c.slot(okCount, 1, "scope/every-scope-counted", "scopes: every scope value, the wildcard included, is counted once per occurrence", isite, "some scope values are not counted (they escape the uniqueness rule)")
-	// uniqueness loop
+	// uniqueness loop over the same map: the count of the entry — looked up with the range key, or the range value
+	// itself, which is that entry as long as the loop does not write the map — must not exceed 1
 	labels, _ := fi.mustPassBetween([]int{uniq.Body.Index}, map[int]bool{uniq.Header.Index: true})
-	_, h := hasLabel(labels, "LE(makemap:map[string]int[", ",const:1)")
-	if !h {
-		_, h = hasLabel(labels, "LT(makemap:map[string]int[", ",const:2)")
+	md := desc(uniq.X)
+	entry := []string{md + "[rangekey(" + md + ")]"}
+	written := false
+	for bi := range loopBlocks(uniq.Header) {
+		for _, in := range SC.Blocks[bi].Instrs {
+			if x, ok := in.(*ssa.MapUpdate); ok && x.Map == uniq.X {
+				written = true
+			}
+		}
+	}
+	if !written {
+		entry = append(entry, "rangeval("+md+")")
+	}
+	h := false
+	for _, e := range entry {
+		if labelHas(labels, "LE("+e+",const:1)") || labelHas(labels, "LT("+e+",const:2)") {
+			h = true
+		}
 	}
 	cut := map[edgeKey]bool{}
 	cutInto(fi, uniq.Header, cut)
 	c.slot(h && fi.successWitness(m, entryState(), cut) == nil, 1, "scope/unique", "scopes: a scope value is used by at most one statement", w.InstrPos(blockTerm(uniq.Header)), "a scope used twice is accepted")
 	// scope format function
-	var FM *ssa.Function
-	for _, ci := range allCalls(SC) {
-		if call, ok := ci.(*ssa.Call); ok && isErrorType(call.Type()) && len(call.Call.Args) == 1 && strings.HasPrefix(desc(call.Call.Args[0]), el) {
-			FM = staticCallee(call)
-		}
-	}
-	if FM == nil {
+	if fmCall == nil {
 		return
 	}
-	ffi := w.Info(FM)
+	FM := staticCallee(fmCall)
 	c.SeenFn(FM.String())
 	fs := w.Summarize(FM, m)
-	p := "param:" + FM.Params[0].Name()
+	p := "param:" + FM.Params[fmArg].Name()
 	fsite := w.FnPos(FM)
-	ok, n2, wit := exitsBlocked(ffi, m, anyOf("LE(len("+p+"),const:1)", "F(call:strings.Contains("+p+`,const:"*"))`), nil)
+	// strings.Contains(s, sep) and the `found` answer of strings.Cut(s, sep) (also written strings.Index(s, sep) >= 0) are the same predicate
+	ok, n2, wit := exitsBlockedDeep(w, FM, m, anyOf("LE(len("+p+"),const:1)", "F(call:strings.Contains("+p+`,const:"*"))`, "F(call:strings.Cut("+p+`,const:"*")#2)`))
 	c.slot(ok && n2 >= 2, n2, "scope-format/no-embedded-wildcard", "scope format: no '*' inside a longer scope", fsite, "", wit...)
 	hasAll := func(subs ...string) bool {
 		if len(fs.Exits) == 0 {
@@ -807,12 +922,23 @@ func c09Scopes(c *Ctx, ociV *ssa.Function) {
 	c.slot(hasAll("NE("+cutD+`#0,const:"")`), 1, "scope-format/domain-non-empty", "scope format: non-empty domain", fsite, "")
 	c.slot(hasAll("NE("+cutD+`#1,const:"")`), 1, "scope-format/repository-non-empty", "scope format: non-empty repository", fsite, "")
 	for i, part := range []string{"domain", "repository"} {
+		// every success exit lies behind the true edge of a MatchString call on this part whose receiver is a
+		// compiled constant pattern (compiled in place, or kept in a field / package variable that only ever holds
+		// that compiled constant: c09RegexpPattern)
 		okRe := false
-		for _, ex := range fs.Exits {
-			for l := range ex.Checked {
-				if strings.HasPrefix(l, "T(call:(*regexp.Regexp).MatchString(call:regexp.MustCompile(const:") && strings.HasSuffix(l, fmt.Sprintf("),%s#%d))", cutD, i)) {
-					okRe = true
-				}
+		for _, ci := range allCalls(FM) {
+			ms, isCall := ci.(*ssa.Call)
+			if !isCall || calleeName(ms) != "(*regexp.Regexp).MatchString" || len(ms.Call.Args) != 2 {
+				continue
+			}
+			if desc(ms.Call.Args[1]) != fmt.Sprintf("%s#%d", cutD, i) {
+				continue
+			}
+			if _, isConst := c09RegexpPattern(w, ms.Call.Args[0], 0); !isConst {
+				continue
+			}
+			if hasAll("T(" + desc(ms) + ")") {
+				okRe = true
 			}
 		}
 		c.slot(okRe && len(fs.Exits) > 0, 1, "scope-format/"+part+"-pattern", "scope format: the "+part+" matches its constant pattern", fsite, "")
@@ -936,7 +1062,12 @@ func certifyFileNameValidator(w *World, fn *ssa.Function) (bool, string) {
 			}
 		}
 		if pat == "" {
-			return false, "a true result does not require a match of a constant pattern on the whole argument (exit " + w.InstrPos(ex.Ret) + ")"
+			// no pattern: the validator may walk the bytes of the name itself (c09ByteLoopValidator)
+			ok, why := c09ByteLoopValidator(w, fn, ex)
+			if ok {
+				continue
+			}
+			return false, "a true result requires neither a match of a constant pattern on the whole argument nor a complete walk over safe bytes (" + why + ") (exit " + w.InstrPos(ex.Ret) + ")"
 		}
 		re, err := syntax.Parse(pat, syntax.Perl)
 		if err != nil {
@@ -1172,28 +1303,102 @@ func c09Level(c *Ctx) {
 	s := w.Summarize(fn, Mode{Kind: mErr})
 	c.Evals += s.States
 	p := "param:" + fn.Params[0].Name()
-	c.requireOnExits("level", fn, s.Exits, []Need{
-		{Name: "non-empty", What: "level name is not empty", Subs: []string{"NE(" + p + `.VerificationLevel,const:"")`}},
-		{Name: "known", What: "level name equals the name of one of the four levels (base level found)", Subs: []string{"NE(phi(", ",nil)"}},
-	})
-	// base level comes from VerificationLevels under name equality
-	ok := false
-	fi := w.Info(fn)
+	want := p + ".VerificationLevel"
+	const lvlT = "ngo/verifier/trustpolicy.VerificationLevel"
+	// guarded: the value, walked back through phis (a loop-carried variable), is nil or an element of VerificationLevels
+	// that enters its phi behind the fact "its Name equals the configured level name" — nothing else can flow into it.
+	guarded := func(f *ssa.Function, frame func(string) string, v ssa.Value) bool {
+		fi := w.Info(f)
+		seen := map[ssa.Value]bool{}
+		n := 0
+		var walk func(v ssa.Value, pred *ssa.BasicBlock) bool
+		walk = func(v ssa.Value, pred *ssa.BasicBlock) bool {
+			if ph, ok := v.(*ssa.Phi); ok {
+				if seen[ph] {
+					return true
+				}
+				seen[ph] = true
+				for i, e := range ph.Edges {
+					if !walk(e, ph.Block().Preds[i]) {
+						return false
+					}
+				}
+				return true
+			}
+			if isNilConst(v) {
+				return true
+			}
+			d := desc(v)
+			if pred == nil || !strings.HasPrefix(d, "global:ngo/verifier/trustpolicy.VerificationLevels[") {
+				return false
+			}
+			g, _ := fi.mustPassBetween([]int{0}, map[int]bool{pred.Index: true})
+			for l := range g {
+				if frame(l) == "EQ("+d+".Name,"+want+")" {
+					n++
+					return true
+				}
+			}
+			return false
+		}
+		return walk(v, nil) && n > 0
+	}
+	// the base level: the nil-tested *VerificationLevel that is selected that way — in the method itself, or by a module
+	// helper that is handed the configured name and returns the selection on every exit (its guard is read in the helper,
+	// the parameter replaced by the argument)
+	var base ssa.Value
 	for _, b := range fn.Blocks {
-		for _, in := range b.Instrs {
-			p2, isPhi := in.(*ssa.Phi)
-			if !isPhi || namedOf(p2.Type()) != "ngo/verifier/trustpolicy.VerificationLevel" {
+		iff, ok := blockTerm(b).(*ssa.If)
+		if !ok || base != nil {
+			continue
+		}
+		bo, ok := iff.Cond.(*ssa.BinOp)
+		if !ok {
+			continue
+		}
+		var x ssa.Value
+		if isNilConst(bo.Y) {
+			x = bo.X
+		} else if isNilConst(bo.X) {
+			x = bo.Y
+		}
+		if x == nil || namedOf(x.Type()) != lvlT {
+			continue
+		}
+		if _, isPtr := x.Type().Underlying().(*types.Pointer); !isPtr {
+			continue
+		}
+		if call, isCall := x.(*ssa.Call); isCall {
+			g := c09Helper(w, call)
+			if g == nil || g.Signature.Results().Len() != 1 {
 				continue
 			}
-			for i, e := range p2.Edges {
-				if strings.HasPrefix(desc(e), "global:ngo/verifier/trustpolicy.VerificationLevels[") {
-					g, _ := fi.mustPassBetween([]int{0}, map[int]bool{p2.Block().Preds[i].Index: true})
-					if _, h := hasLabel(g, "EQ(global:ngo/verifier/trustpolicy.VerificationLevels[", "].Name,"+p+".VerificationLevel)"); h {
-						ok = true
+			fr := c09TopFrame().enter(call)
+			all, n := true, 0
+			for _, gb := range g.Blocks {
+				if r, isRet := blockTerm(gb).(*ssa.Return); isRet {
+					n++
+					if len(r.Results) != 1 || !guarded(g, fr.sub, r.Results[0]) {
+						all = false
 					}
 				}
 			}
+			if all && n > 0 {
+				base = x
+			}
+			continue
+		}
+		if guarded(fn, func(s string) string { return s }, x) {
+			base = x
 		}
 	}
-	c.Check(ok, "level/by-name", "the base level is the element of VerificationLevels whose Name equals the configured level name", w.FnPos(fn), "the base level is chosen otherwise")
+	known := Need{Name: "known", What: "level name equals the name of one of the four levels (base level found)", Subs: []string{"NE(phi(", ",nil)"}}
+	if base != nil {
+		known.Subs = []string{"NE(" + desc(base) + ",nil)"}
+	}
+	c.requireOnExits("level", fn, s.Exits, []Need{
+		{Name: "non-empty", What: "level name is not empty", Subs: []string{"NE(" + p + `.VerificationLevel,const:"")`}},
+		known,
+	})
+	c.Check(base != nil, "level/by-name", "the base level is the element of VerificationLevels whose Name equals the configured level name", w.FnPos(fn), "the base level is chosen otherwise")
 }
